@@ -72,7 +72,7 @@ func (x *Exec) callCommon(fr *frame, ins ssa.CallInstruction, c *ssa.CallCommon,
 		x.trace.add(cs)
 	}
 	cs.Class = effectClass(name)
-	if cs.Class != "" {
+	if cs.Class != "" && mutatingClass(cs.Class) {
 		st.Ghost["effects"] = x.vc.S.def("g_effects", ic(add(ghost(st, "effects"), "1"))).T
 	}
 	// site assertions of the top-level contract
@@ -80,6 +80,23 @@ func (x *Exec) callCommon(fr *frame, ins ssa.CallInstruction, c *ssa.CallCommon,
 		x.siteAsserts(fr, cs, st, r)
 	}
 	var res Val
+	defer func() { cs.Mark = x.vc.S.mark() }()
+	if m, ok := x.over[name]; ok {
+		res, r = m(x, fr, ins, c, args, st, r)
+		cs.Res = res
+		return res, r
+	}
+	if x.opaque[name] {
+		res = x.opaqueCall(name, resT, st, r)
+		cs.Res = res
+		return res, r
+	}
+	if cs.Class != "" && x.over != nil {
+		// mode A: an effectful callee is not looked into
+		res = x.havocCall(name, resT, args, argVals, st, r)
+		cs.Res = res
+		return res, r
+	}
 	switch f := c.Value.(type) {
 	case *ssa.Builtin:
 		res, r = x.builtin(fr, ins, f, c, args, st, r)
@@ -438,4 +455,16 @@ func v0(v Val) string {
 		return "0"
 	}
 	return v[0].T
+}
+
+// opaqueCall: a constructor-like callee that is verified on its own; here its result is a
+// fresh value and existing memory is unchanged.
+func (x *Exec) opaqueCall(name string, resT *types.Tuple, st *State, r string) Val {
+	na := x.vc.S.freshConst("alloc_call", false)
+	x.vc.S.fact(r, sx(">=", na, st.Alloc))
+	old := st.Alloc
+	x.vc.allocP[na] = []string{old}
+	st.Alloc = na
+	x.vc.havocFrame(st, old)
+	return x.havocVal(resT, st, r, "call_"+shortName(name))
 }
